@@ -80,6 +80,8 @@ def write_replay(prop, job, res, ob, tag, tier):
            'tag': tag, 'tier': tier, 'checker_cmd': res.get('checker_cmd'),
            'witness': witness_from_trace(ob.get('trace')),
            'cbmc_trace_tail': [s for s in (ob.get('trace') or []) if s.get('stepType') in ('assignment', 'failure')][-60:],
+           'ghost_assignments': [[str(s.get('lhs')), (s.get('value') or {}).get('data')] for s in (ob.get('trace') or [])
+                                 if s.get('stepType') == 'assignment' and str(s.get('lhs', '')).startswith('g_') and (s.get('value') or {}).get('data') is not None][-400:],
            'native_replay': None}
     json.dump(rec, open(path, 'w'), indent=1, default=str)
     return path, rec
@@ -268,6 +270,9 @@ def check(prop, tier, seed):
     def do_replay(item):
         j, r, ob, tag, path, rec = item
         try:
+            if not j.replay and j.group in ('comb', 'comb2', 'exc'):
+                import vfreplay_comb
+                return vfreplay_comb.comb_replay(j, rec, mods[j.group], groups[j.group][1], r, ob.get('trace'))
             return vfreplay.native_replay(j, rec, mods[j.group])
         except Exception as ex:
             return {'reproduced': False, 'error': 'replay machinery: %s' % ex}
